@@ -685,7 +685,7 @@ class Evaluator:
             # bind sub patterns to projections; refutable sub patterns refine the condition
             c = Cond("sym", "is%s(%s)" % (name, vkey(v)))
             for s in pat.get("subs", []):
-                pv = Sym("payload(%s,%s)" % (vkey(v), name))
+                pv = Sym("payload(%s,%s)" % (vkey(v), name if s.get("f") in ("0", "", None) else "%s.%s" % (name, s["f"])))
                 self.bind(s["p"], pv, binds)
                 if s["p"]["k"] not in ("Bind", "Wild"):
                     sc, sb = self.pat_cond(s["p"], pv, env)
@@ -1114,6 +1114,9 @@ class Evaluator:
             ci, cn = tb.e(n["cond"])
             binds = {}
             followed = False
+            if getattr(self, "watch", None):
+                # watched calls inside the condition itself (e.g. `if let Err(e) = f(x)`)
+                self._collect(tb, cn["e"] if cn["k"] == "Let" else n["cond"], env, depth, None, out, guard, path)
             if cn["k"] == "Let":
                 si, sn = tb.e(cn["e"])
                 callee = (sn.get("res") or sn.get("fn")) if sn["k"] == "Call" else None
@@ -1178,13 +1181,28 @@ class Evaluator:
             except Unsupported:
                 lhs, rhs = Sym("?"), Sym("?")
             sp = n.get("sp", {})
-            out.append({"assign": (n.get("op", "="), vkey(lhs)[:200], vkey(rhs)[:200]), "guard": guard,
+            out.append({"assign": (n.get("op", "="), vkey(lhs)[:60000], vkey(rhs)[:60000]), "guard": guard,
                         "where": "%s:%s" % (sp.get("f"), sp.get("l")), "fn": path})
             li, ln = tb.e(n["l"])
             while ln["k"] == "Deref":
                 li, ln = tb.e(ln["e"])
             if ln["k"] in ("Var", "Upvar") and ln["id"] in env:
                 env[ln["id"]] = rhs if k == "Assign" else Sym("%s(%s,%s)" % (n.get("op", "?").replace("Assign", ""), vkey(lhs), vkey(rhs)))
+        if k == "Return" and getattr(self, "watch", None):
+            try:
+                rv = vkey(self.eval(tb, n["e"], env, depth))[:60000] if n.get("e") is not None else "unit"
+            except Unsupported:
+                rv = "?"
+            out.append({"ret": rv, "guard": guard, "fn": path, "node": i, "tb": tb})
+        if k == "Call" and getattr(self, "watch", None):
+            callee = n.get("res") or n.get("fn") or ""
+            if self.watch(callee):
+                try:
+                    cargs = [vkey(self.eval(tb, a, env, depth))[:60000] for a in n["args"]]
+                except Unsupported:
+                    cargs = ["?"]
+                sp = n.get("sp", {})
+                out.append({"call": callee, "args": cargs, "guard": guard, "where": "%s:%s" % (sp.get("f"), sp.get("l")), "fn": path, "node": i, "tb": tb})
         if k == "Call" and follow and (n.get("res") or n.get("fn")) in self.f.fns and follow(n.get("res") or n.get("fn")) \
                 and (n.get("res") or n.get("fn")) != path:
             callee = n.get("res") or n.get("fn")
